@@ -83,9 +83,10 @@ CLAIMED = {
          'the latter is used by trusted contract'),
  'C15': ('remote id set once by the first OKAY and never changed, OKAY / CLSE / WRTE handling of a stream, close from either side answered by exactly one CLSE with '
          'the stream\'s ids and the id released (closing twice sends nothing), packet types illegal mid-session raise AdbProtocolError (defect found and fixed), '
-         'AdbConnection.__init__ (maxdata, banner split, malformed banner)',
-         'the CNXN / AUTH handshake (connect) and local id allocation (_make_stream_transport: itertools) are not under contract: two of the three seeded changes '
-         'for this property are there and are not detected'),
+         'AdbConnection.__init__ (maxdata, banner split, malformed banner), connect(): CNXN first, only TOKEN challenges are signed, keys tried in order each at '
+         'most once, at most one public key, a connection only after the CNXN of the device with its maxdata',
+         'read_until (skipping unrelated packets) and the signers are used by trusted contract; local id allocation (_make_stream_transport: itertools) is not under '
+         'contract: the seeded change there is not detected'),
  'C16': ('response loop (INFO forwarded in order, OKAY payload returned, FAIL / out-of-place DATA or OKAY / unknown header raise the prescribed error), '
          'one "command[:arg]" packet per command, download announcement "download:%08x", image bytes only after DATA with exactly that size, '
          'exactly the image in order in chunks <= chunk size, cumulative progress, progress-callback failures absorbed (coroutine contract); '
